@@ -1442,17 +1442,15 @@ fn binary_search_by_time_us(time_us: u64, fc: &FileContext, stream: &StreamConte
     } else {
         BTreeMap::<LifecycleId, u64>::new()
     };
-    let all_msgs_idx = fc
-        .all_msgs
-        .binary_search_by(|m| {
-            let m_time = if let Some(lc_start_time) = lc_id_map.get(&m.lifecycle) {
-                lc_start_time + m.timestamp_us()
-            } else {
-                m.reception_time_us
-            };
-            m_time.cmp(&time_us)
-        })
-        .unwrap_or_else(|e| e);
+    // first msg not before time_us (binary_search_by would return any of the msgs with an equal time)
+    let all_msgs_idx = fc.all_msgs.partition_point(|m| {
+        let m_time = if let Some(lc_start_time) = lc_id_map.get(&m.lifecycle) {
+            lc_start_time + m.timestamp_us()
+        } else {
+            m.reception_time_us
+        };
+        m_time < time_us
+    });
     if stream.filters_active {
         // return the index that fits to that:
         // binary_search is ok as the filtered_msgs are sorted by all_msgs index! (not by msg index)
@@ -1542,10 +1540,15 @@ fn binary_search_by_msg_index(
             .all_msgs
             .binary_search_by(|m| m.index.cmp(&wanted_msg_idx));
         if let Ok(all_msgs_idx) = all_msgs_idx {
-            let filtered_msg_index = stream
-                .filtered_msgs
-                .binary_search(&all_msgs_idx)
-                .unwrap_or_else(|e| e);
+            let filtered_msg_index = if stream.filters_active {
+                stream
+                    .filtered_msgs
+                    .binary_search(&all_msgs_idx)
+                    .unwrap_or_else(|e| e)
+            } else {
+                // !filters_active: filtered_msgs is not used
+                all_msgs_idx
+            };
             Ok(filtered_msg_index)
         } else {
             Err(format!(
